@@ -16,10 +16,18 @@
    (the reference semantics of Backends/Ops.v); (14)-(16) are about the VALUES under it -- which
    element expand takes for an internal dimension counted from the front or from the back, and
    that stack undoes expand -- and the correspondence run compares these values with the
-   evaluation of the real graph.  (17): a call does not depend on other calls of the session. *)
+   evaluation of the real graph.  (17): a call does not depend on other calls of the session.
+   (18)-(21): ELEMENT TYPES.  Fluent/ActionSemT.v gives every value its NumPy dtype (Backends/Dtype.v):
+   sum / prod accumulate booleans and narrow integers in the 64-bit integer, a + b stays in the type
+   of its operands, results are stored with wrap-around.  Proved: batching integer sums / products
+   changes neither value nor element type, wrap-around included; the result type is the accumulator
+   type whatever mixture of sources and batch results is reduced; a reduction that folds its inputs
+   pairwise with the element-wise ufunc is ANOTHER function on booleans and narrow integers.  The
+   typed model is compared with the evaluation of the real graph, dtype and value of every cell,
+   on every run (stream semt). *)
 From Coq Require Import List NArith ZArith String Bool Field QArith Qcanon.
 From EKW Require Import Fluent.XArr Fluent.Action Fluent.Batch Fluent.ActionProofs Fluent.ActionSpecs
-  Fluent.ActionStd Fluent.ActionTransform Fluent.ActionSem Fluent.ActionSemProofs.
+  Fluent.ActionStd Fluent.ActionTransform Fluent.ActionSem Fluent.ActionSemProofs Fluent.ActionSemT Fluent.ActionSemTProofs.
 From EKW Require Fluent.ActionCheck.   (* keeps the correspondence checker's .vo in step with the model *)
 From EKW Require Import Fluent.ActionSemCheck.
 Import ListNotations.
@@ -396,6 +404,55 @@ Theorem C13_call_ignores_other_results : forall env more ins,
   step (env ++ more) ins = step env ins.
 Proof. exact step_ignores_other_results. Qed.
 
+(* (18) integer / boolean arrays, pointwise (an element of type d or of the accumulator type, lo..hi the
+   accumulator's range): sum and prod obey the batch law although the accumulator wraps around ... *)
+Theorem C13_integer_sum_prod_obey_batch_law : forall lo hi, (lo <= hi)%Z -> forall kw,
+  batch_law iv (gf iv (apI lo hi) f_sum kw) /\
+  forall b, batch_law iv (gf iv (apI lo hi) {| fname := "prod"; fbatch := b |} kw).
+Proof. intros lo hi H kw. split; [exact (apI_sum_law lo hi kw)|exact (apI_prod_law lo hi H kw)]. Qed.
+
+(* (18') ... so that ANY batch size gives, at every coordinate, the same number of the same element type
+   (the `wide` flag of the element) as the unbatched sum: (2) instantiated, no field needed *)
+Theorem C13_integer_sum_batching_keeps_value_and_dtype : forall lo hi, (lo <= hi)%Z ->
+  forall (src : N -> iv) kw d bs keep a r,
+    a_reduce f_sum kw d bs keep a = Ok r ->
+    exists r0, a_reduce f_sum kw d 0 keep a = Ok r0 /\
+      xdims r = xdims r0 /\ xscal r = xscal r0 /\
+      forall t, ev iv src (apI lo hi) (xat r t) = ev iv src (apI lo hi) (xat r0 t).
+Proof.
+  intros lo hi H src kw.
+  exact (C13_batching_never_changes_values iv src (apI lo hi) f_sum kw (apI_sum_law lo hi kw)).
+Qed.
+
+(* (19) the arguments of a (batched) sum / prod over arrays of an integer / boolean type d are of type d
+   (sources, batches of one passed through) or acc_dtype d (batch results), in any mixture and order:
+   NumPy's result type (xp.asarray then xp.sum / xp.prod) is acc_dtype d *)
+Theorem C13_accumulating_result_dtype : forall d, is_int d = true -> forall name ts ax ds,
+  (name = "sum" \/ name = "prod") -> ds <> [] -> forallb (narrow_or_acc d) ds = true ->
+  BD.result_dtype_seq (BO.CReduce name ts ax) ds = Some (BD.acc_dtype d).
+Proof. exact accumulating_result_dtype. Qed.
+
+(* (20) a reduction implemented as functools.reduce(xp.add / xp.multiply, inputs) is NOT sum / prod: on two
+   arrays of a boolean / narrow integer type it yields the operands' type, the reduction the accumulator
+   type -- whatever the values (and the values differ as soon as the sum leaves the narrow range, for
+   booleans as soon as two masks overlap: see the example) *)
+Theorem C13_pairwise_fold_is_not_the_reduction : forall d name u ta tb rf rr,
+  narrow d = true -> (name = "sum" /\ u = "add" \/ name = "prod" /\ u = "multiply") ->
+  fold_sem u [BT.Ok (d, ta); BT.Ok (d, tb)] = BT.Ok rf ->
+  apTT {| fname := name; fbatch := true |} [BT.Ok (d, ta); BT.Ok (d, tb)] [] [] = BT.Ok rr ->
+  fst rf = d /\ fst rr = BD.acc_dtype d /\ rf <> rr.
+Proof. exact fold_keeps_dtype_reduction_accumulates. Qed.
+
+(* (21) without overflow the accumulator holds the exact sum *)
+Theorem C13_integer_sum_exact_without_overflow : forall lo hi, (lo <= hi)%Z -> forall x y vs,
+  existsb iv_err (x :: y :: vs) = false ->
+  (lo <= zsum (map iv_val (x :: y :: vs)) <= hi)%Z ->
+  apI lo hi f_sum (x :: y :: vs) [] [] = IV true (zsum (map iv_val (x :: y :: vs))).
+Proof.
+  intros lo hi H x y vs He Hr. change (apI lo hi f_sum (x :: y :: vs) [] []) with (accI lo hi zsum (x :: y :: vs)).
+  unfold accI. rewrite He. now rewrite (wrap_id lo hi).
+Qed.
+
 (* ------------------------------------------------------------------ non-vacuity *)
 Definition exA : xarr :=
   a_source [("x", [CZ 10; CZ 11; CZ 12; CZ 13; CZ 14]); ("y", [CS "a"; CS "b"])] 0.
@@ -523,6 +580,57 @@ Proof.
   split; [reflexivity|]. split; [vm_compute; repeat split; reflexivity|]. split; reflexivity.
 Qed.
 
+(* element types.  Three exceedance masks over 3 grid points, summed along the node dimension: NumPy counts
+   (int64 [3;1;0], also with batch size 2), the pairwise fold gives the mask of "any" (bool [1;1;0]);
+   two int8 arrays [100] and [100]: sum = int64 200, fold = int8 -56 *)
+Definition exM : xarr := a_source [("m", [CZ 0; CZ 1; CZ 2])] 0.
+Definition masks : list tarr :=
+  [tsrc BD.DBool [3]%nat [1; 1; 0]%Z; tsrc BD.DBool [3]%nat [1; 0; 0]%Z; tsrc BD.DBool [3]%nat [1; 0; 0]%Z].
+Definition int8s : list tarr := [tsrc BD.DI8 [1]%nat [100]%Z; tsrc BD.DI8 [1]%nat [100]%Z; tsrc BD.DI8 [1]%nat [27]%Z].
+Definition evFold (srcs : list tarr) (e : expr) : tval := ev tval (src_ofT srcs) apFold e.
+Definition int64_bounds := int_bounds BD.DI64.
+
+Example C13_masks_are_counted_nonvacuous :
+  match a_reduce f_sum [] "m" 0 false exM, a_reduce f_sum [] "m" 2 false exM with
+  | Ok r0, Ok r2 =>
+      val_eqbT true (evTT masks (xat r0 [])) (BD.DI64, [3]%nat, [(3, 1%positive); (1, 1%positive); (0, 1%positive)]%Z) = true /\
+      val_eqbT true (evTT masks (xat r2 [])) (BD.DI64, [3]%nat, [(3, 1%positive); (1, 1%positive); (0, 1%positive)]%Z) = true /\
+      val_eqbT true (evFold masks (xat r0 [])) (BD.DBool, [3]%nat, [(1, 1%positive); (1, 1%positive); (0, 1%positive)]%Z) = true /\
+      val_eqbT true (evTT int8s (xat r0 [])) (BD.DI64, [1]%nat, [(227, 1%positive)]%Z) = true /\
+      val_eqbT true (evTT int8s (xat r2 [])) (BD.DI64, [1]%nat, [(227, 1%positive)]%Z) = true /\
+      val_eqbT true (evFold int8s (xat r0 [])) (BD.DI8, [1]%nat, [((-29)%Z, 1%positive)]) = true
+  | _, _ => False
+  end.
+Proof. vm_compute. repeat split; reflexivity. Qed.
+
+Example C13_pairwise_fold_nonvacuous :
+  narrow BD.DBool = true /\ narrow BD.DI8 = true /\ narrow BD.DU32 = true /\ narrow BD.DI64 = false /\
+  is_okbT (fold_sem "add" [BT.Ok (tsrc BD.DI8 [1]%nat [100]%Z); BT.Ok (tsrc BD.DI8 [1]%nat [100]%Z)]) = true /\
+  is_okbT (apTT f_sum [BT.Ok (tsrc BD.DI8 [1]%nat [100]%Z); BT.Ok (tsrc BD.DI8 [1]%nat [100]%Z)] [] []) = true.
+Proof. vm_compute. repeat split; reflexivity. Qed.
+
+Example C13_integer_batch_law_nonvacuous :
+  (fst int64_bounds <= snd int64_bounds)%Z /\ is_int BD.DI8 = true /\
+  forallb (narrow_or_acc BD.DI8) [BD.DI64; BD.DI8; BD.DI64] = true /\
+  (* 2^63 - 1 + 1 wraps to -2^63, batched or not *)
+  apI (fst int64_bounds) (snd int64_bounds) f_sum [IV false 9223372036854775807; IV false 1] [] [] = IV true (-9223372036854775808) /\
+  apI (fst int64_bounds) (snd int64_bounds) f_sum [IV false 100; IV false 100] [] [] = IV true 200.
+Proof. vm_compute. repeat split; try reflexivity; discriminate. Qed.
+
+(* the squares of the batched std: x ** 2 on an int8 array wraps (100 ** 2 -> 16), x ** 2.0 is computed in
+   float64; with the float exponent the variance node of the batched std of [98; 98; 102; 102] is exactly 4 *)
+Example C13_std_squares_in_floating_point_nonvacuous :
+  val_eqbT true (evTT int8s (App f_pow [Src 0] [CZ 2] [])) (BD.DI8, [1]%nat, [(16, 1%positive)]%Z) = true /\
+  val_eqbT true (evTT int8s (App f_pow [Src 0] [CF 2] [])) (BD.DF64, [1]%nat, [(10000, 1%positive)]%Z) = true /\
+  match a_std "m" 2 false [] (a_source [("m", [CZ 0; CZ 1; CZ 2; CZ 3])] 0) with
+  | Ok r => match xat r [] with
+            | App _ [variance] _ _ =>
+                val_eqbT true (evTT [tsrc BD.DI8 [1]%nat [98]%Z; tsrc BD.DI8 [1]%nat [98]%Z; tsrc BD.DI8 [1]%nat [102]%Z;
+                                     tsrc BD.DI8 [1]%nat [102]%Z] variance) (BD.DF64, [1]%nat, [(4, 1%positive)]%Z) = true
+            | _ => False end
+  | Err _ => False end.
+Proof. vm_compute. repeat split; reflexivity. Qed.
+
 Example C13_call_ignores_other_results_nonvacuous :
   let env := [exA] in let ins := IStack 0 "x" 0 false 1 [] in
   (forall i, In i (operands ins) -> (i < List.length env)%nat) /\ is_ok (step env ins) = true.
@@ -564,3 +672,8 @@ Print Assumptions C13_expand_values.
 Print Assumptions C13_take_then_stack_is_identity.
 Print Assumptions C13_expand_then_stack_values.
 Print Assumptions C13_call_ignores_other_results.
+Print Assumptions C13_integer_sum_prod_obey_batch_law.
+Print Assumptions C13_integer_sum_batching_keeps_value_and_dtype.
+Print Assumptions C13_accumulating_result_dtype.
+Print Assumptions C13_pairwise_fold_is_not_the_reduction.
+Print Assumptions C13_integer_sum_exact_without_overflow.
